@@ -4,7 +4,8 @@ proof  : lean/Pyunicorn/Properties/C03.lean (matrix formulas / kernel loops =
          counts of the named sub-structures, BFS = shortest walk length, Laplacian
          laws, path-measure conventions, assortativity = Pearson, unit-weight
          n.s.i. relations, arithmetic width of the cliquishness denominators,
-         translator tie translate/arith_C03.json)
+         translator tie translate/arith_C03.json; round 4: link-weighted motif clustering =
+         Fagiolo's definition, Newman random-walk kernel + normalisation by the component size)
 tie    : correspondence of the Lean model (lean/Pyunicorn/Model/Net*.lean) with
          the public methods of `Network` and with the Cython kernels called
          directly, on the same graphs: exact for integer outputs, |x - p/q| <=
@@ -12,7 +13,8 @@ tie    : correspondence of the Lean model (lean/Pyunicorn/Model/Net*.lean) with
 search : brute-force definitions in `fractions.Fraction` (subset enumeration,
          Floyd-Warshall with path counting, peeling by subset search, Pearson
          correlation, dense linear algebra for the spectral / random-walk
-         measures) evaluated on the implementation's graphs, independent of Lean
+         measures) evaluated on the implementation's graphs, independent of Lean;
+         harness/c03_sweep.py: every public measure x every optional argument, coverage obligation
 """
 import contextlib
 import io
@@ -24,6 +26,7 @@ from fractions import Fraction as Fr
 import numpy as np
 
 from . import common
+from . import c03_sweep
 
 TOL = 1e-9
 INF = float("inf")
@@ -467,6 +470,7 @@ class Run:
         self.freqs = []                               # (request, impl floats, meta) tolerance
         self.kernel_vs_def = []                       # round 3: arguments of betw / betwdef pairs
         self.sigma_reqs = []
+        self.newman_def = []                          # round 4
 
     # exact correspondence item
     def exact(self, req, impl, meta):
@@ -1360,6 +1364,7 @@ def round3_checks(ctx, run, A, directed, tier):
         if nb <= 0:
             continue   # a histogram with no class: numpy raises, the distribution is undefined
         c, mb, tot, _ = hist_bounds(base, nb)
+        c03_sweep.mark(meth)
         if st != "ok" or not hist_ok(got, c, mb, tot, cum):
             ctx.fail(sig("api", meth), f"{meth} is not the normalised {'cumulative ' if cum else ''}histogram of the "
                      f"degrees in {nb} equal classes between the smallest and the largest degree",
@@ -1410,6 +1415,10 @@ def round3_checks(ctx, run, A, directed, tier):
             kw = {} if tw is None else {"typical_weight": float(tw)}
             st, got = quiet(netw.nsi_degree_histogram, **kw)
             ctx.count("oracle:nsi_degree_histogram")
+            for meth_ in ("nsi_degree_histogram", "nsi_degree_cumulative_histogram"):
+                c03_sweep.mark(meth_)
+                if tw is not None:
+                    c03_sweep.mark(meth_, "typical_weight")
             if st != "ok" or not hist_ok(got[0], c, mb, tot) or \
                     any(not rel_close(x, e, 1e-9) for x, e in zip(fl(got[2]), edges)):
                 ctx.fail(sig("api", "nsi_degree_histogram", typical_weight=tw is not None),
@@ -1441,6 +1450,7 @@ def round3_checks(ctx, run, A, directed, tier):
         arg = Wf if width == "list" else np.array(Wf, dtype=width)
         st, got = quiet(Network.weighted_local_clustering, arg)
         ctx.count(f"oracle:weighted_local_clustering:{width if width == 'list' else width.__name__}")
+        c03_sweep.mark("weighted_local_clustering")
         tol = 2e-6 if width is np.float32 else 1e-9
         if st != "ok" or len(fl(got)) != n or any(
                 (e is None and not math.isnan(x)) or (e is not None and not abs(x - float(e)) <= tol * max(1.0, float(e)))
@@ -1649,6 +1659,8 @@ def run(ctx):
                 "permuted copies; every graph goes through every applicable measure; a subset additionally "
                 "through every constructor / array type, the public wrappers with non-default arguments, "
                 "float32/float64 weights rescaled by powers of two and 12-step call histories on one object; "
+                "round 4: every public measure of Network (by introspection) with every optional argument on "
+                "structured, sparse-disconnected and sampled graphs with cube link weights and dyadic node weights; "
                 "distinct = distinct "
                 "(directed, adjacency); non-trivial = at least 3 nodes and one link"
                 % ((4, 3) if quick else (5, 4)))
@@ -1707,6 +1719,21 @@ def run(ctx):
     for fam, A, directed in (esel if len(esel) <= nr else rng.sample(esel, nr)):
         round3_checks(ctx, run_, A, directed, ctx.tier)
     hub_betweenness(ctx)
+    # round 4: every public measure of Network (found by introspection) with every optional argument against
+    # its definition, random-walk betweenness per connected component on disconnected graphs included
+    api = c03_sweep.public_api()
+    ssel = [g for g in graphs if g[0] not in ("exhaustive", "exhaustive-sample", "random")
+            and g[1].shape[0] <= 12]
+    for c in range(30 if quick else 200):     # sparse graphs: several components of >= 2 nodes
+        n = rng.randrange(5, 15)
+        ssel.append(("sparse-disconnected", random_graph(rng, n, rng.choice([0.8, 1.2, 1.6]) / n, False), False))
+    pool = [g for g in graphs if g[0] in ("exhaustive", "exhaustive-sample", "random") and 3 <= g[1].shape[0] <= 12]
+    ssel += rng.sample(pool, min(len(pool), 90 if quick else 900))
+    for fam, A, directed in ssel:
+        ctx.count("sweep:family:" + fam)
+        ctx.case(("sweep", directed, A.shape[0], A.tobytes().hex()), bool(A.any()))
+        c03_sweep.sweep_graph(ctx, A, directed, api, run_)
+    c03_sweep.coverage_obligation(ctx)
     # inside the model: the statement-by-statement kernel model against the pair-dependency definition,
     # and the path-count recursion against the enumeration of all shortest paths (exact rationals)
     kd = run_.kernel_vs_def
@@ -1719,6 +1746,12 @@ def run(ctx):
     ctx.obligation(f"model: path-count recursion == sum over all enumerated shortest paths, exact "
                    f"({len(run_.sigma_reqs)} requests)", "correspondence", not bads, "\n".join(bads[:5]))
 
+    nd = run_.newman_def
+    ansn = common.driver(ctx.pid, nd)
+    badn = [r[:300] for r, x in zip(nd, ansn) if x != "1"]
+    ctx.obligation(f"model: per component, reduced Kirchhoff matrix x computed inverse == identity and "
+                   f"newman kernel + normalisation == sum_(t<s) I_i^st / ((N_c-1)/2), exact ({len(nd)} graphs)",
+                   "correspondence", not badn, "\n".join(badn[:5]))
     # ---------------- correspondence with the Lean model --------------------------------
     ctx.correspond("Lean Net model == Network methods (integer outputs)", run_.reqs, run_.exp)
     freqs = run_.freqs
